@@ -29,5 +29,10 @@ MatesMatch(l1, l2) ==
 
 WellFormedPair(l1, l2) == WellFormed(l1) /\ WellFormed(l2) /\ MatesMatch(l1, l2)
 
+\* one interleaved file: records 2j and 2j+1 are the mates of pair j
+WellFormedInterleaved(l) ==
+  /\ WellFormed(l) /\ NumRecords(l) % 2 = 0
+  /\ \A j \in 0..((NumRecords(l) \div 2) - 1) : StripMate(ReadId(l[8 * j + 1])) = StripMate(ReadId(l[8 * j + 5]))
+
 IsPrefixOf(s, t) == Len(s) <= Len(t) /\ \A i \in 1..Len(s) : s[i] = t[i]
 =============================================================================
